@@ -2,11 +2,11 @@ SPECIFICATION Spec
 CONSTANTS
   Buckets = {"m", "d"}
   K = 3
-  MaxSteps = 8
+  MaxSteps = 7
   SeedOnOpen = TRUE
   SeedFromBucketMark = FALSE
   MetaKeepsMark = TRUE
 VIEW View
 CHECK_DEADLOCK FALSE
 INVARIANTS
-  AboveBeforeRestart
+  WitnessScripts
